@@ -12,37 +12,32 @@ From PV Require Import Gen.C20_Tables.
    what comes out (NoSuchProcess / ZombieProcess / AccessDenied carrying pid and cached name,
    other errors unchanged, PID-0 rule on BSD and Solaris, the commented fall-backs) *)
 Theorem C20_ladder_model : forall p meth site c r,
-  err_ok p (c_err c) = true -> known_unwrapped p meth = false ->
+  err_ok p (c_err c) = true ->
   demanded p meth site c = Some r -> method_outcome p meth site c = r.
 Proof. exact ladder_model. Qed.
 Print Assumptions C20_ladder_model.
 
-(* finding: Windows ppid() is not decorated -- a permission failure leaves as the bare error *)
-Theorem C20_ppid_unwrapped_refuted :
+(* what fix a2d103c repaired: with Windows ppid() undecorated (legacy variant of the model) a
+   permission failure of ppid_map() left as the bare error; the present model gives AccessDenied *)
+Theorem C20_ppid_unwrapped_legacy_refuted :
   exists c, err_ok Windows (c_err c) = true /\ demanded Windows "ppid" "ppid_map" c = Some RDenied
-            /\ method_outcome Windows "ppid" "ppid_map" c = RRaw.
-Proof. exact ppid_unwrapped_refuted. Qed.
-Print Assumptions C20_ppid_unwrapped_refuted.
+            /\ method_outcome_pre_a2d103c Windows "ppid" "ppid_map" c = RRaw
+            /\ method_outcome Windows "ppid" "ppid_map" c = RDenied.
+Proof. exact ppid_unwrapped_legacy_refuted. Qed.
+Print Assumptions C20_ppid_unwrapped_legacy_refuted.
 
 (* the CODE (probed over the stub native layer, every platform x method x native call x error
    x state x pid): every outcome meets the contract, with pid and cached name carried *)
 Theorem C20_ladder_contract : forall b, In b ladder_blocks ->
-  known_unwrapped (l_plat b) (l_meth b) = false ->
   Forall2 (fun c g => gout_ok (demanded (l_plat b) (l_meth b) (l_site b) c) g = true) (conds (l_plat b)) (l_outs b).
 Proof. exact ladder_contract. Qed.
 Print Assumptions C20_ladder_contract.
 
-(* ... and equals the hand-written model on every row (also the excluded ones) *)
+(* ... and equals the hand-written model on every row *)
 Theorem C20_ladder_tables_equal_model : forall b, In b ladder_blocks ->
   Forall2 (fun c g => gout_ok (Some (method_outcome (l_plat b) (l_meth b) (l_site b) c)) g = true) (conds (l_plat b)) (l_outs b).
 Proof. exact ladder_tables_equal_model. Qed.
 Print Assumptions C20_ladder_tables_equal_model.
-
-Theorem C20_ppid_unwrapped_in_tables :
-  exists b, In b ladder_blocks /\ l_plat b = Windows /\ l_meth b = "ppid"%string /\
-    forallb2 (fun c g => gout_ok (demanded (l_plat b) (l_meth b) (l_site b) c) g) (conds (l_plat b)) (l_outs b) = false.
-Proof. exact ppid_unwrapped_in_tables. Qed.
-Print Assumptions C20_ppid_unwrapped_in_tables.
 
 (* kinfo_proc_map / pidtaskinfo_map / proc_info_map / pinfo_map: each index 0..n-1 exactly once *)
 Theorem C20_slot_maps_bijective : forall m, In m slot_maps ->
@@ -60,10 +55,10 @@ Print Assumptions C20_slot_maps_complete.
 
 (* every probed method with a documented layout returns that shape, those field names, each
    field filled from the documented native slot (its position in the native record), and the
-   documented tuple type (gids() on macOS/SunOS/AIX excluded: finding) *)
+   documented tuple type *)
 Theorem C20_methods_use_documented_slots : forall u d, In u usage_rows ->
   doc_layout (u_plat u) (u_meth u) (u_variant u) = Some d ->
-  fields_ok u d = true /\ (known_gids_type (u_plat u) (u_meth u) = false -> type_ok u d = true).
+  fields_ok u d = true /\ type_ok u d = true.
 Proof. exact methods_use_documented_slots. Qed.
 Print Assumptions C20_methods_use_documented_slots.
 
@@ -71,21 +66,10 @@ Theorem C20_usage_rows_complete : forall p m v, In (p, m, v) doc_keys -> exists 
 Proof. exact usage_rows_complete. Qed.
 Print Assumptions C20_usage_rows_complete.
 
-(* status() and terminal() depend on their documented slot (Solaris terminal() excluded: finding) *)
-Theorem C20_methods_depend_on_documented_slot : forall u, In u usage_rows ->
-  known_terminal (u_plat u) (u_meth u) = false -> deps_ok u = true.
+(* status() and terminal() depend on their documented slot *)
+Theorem C20_methods_depend_on_documented_slot : forall u, In u usage_rows -> deps_ok u = true.
 Proof. exact methods_depend_on_documented_slot. Qed.
 Print Assumptions C20_methods_depend_on_documented_slot.
-
-Theorem C20_gids_type_refuted : forall p, In p [MacOS; SunOS; AIX] ->
-  exists u, In u usage_rows /\ u_plat u = p /\ u_meth u = "gids"%string /\ u_type u = "puids"%string /\ gids_type_bad u = true.
-Proof. exact gids_type_refuted. Qed.
-Print Assumptions C20_gids_type_refuted.
-
-Theorem C20_sunos_terminal_refuted :
-  exists u, In u usage_rows /\ u_plat u = SunOS /\ u_meth u = "terminal"%string /\ deps_ok u = false.
-Proof. exact sunos_terminal_refuted. Qed.
-Print Assumptions C20_sunos_terminal_refuted.
 
 (* the front end of every platform exposes the documented names and Process methods; __all__ resolves *)
 Theorem C20_names_exposed : forall n, In n names_rows ->
